@@ -312,7 +312,7 @@ def repo_test_inputs():
     return sorted(set(qs))
 
 
-def stage_texts(run, texts, observe=False, trace=False, name="texts"):
+def stage_texts(run, texts, observe=False, trace=False, name="texts", json=False):
     inp = os.path.join(run.work, name + "_in.ndjson")
     with open(inp, "w") as f:
         for q in texts:
@@ -321,6 +321,8 @@ def stage_texts(run, texts, observe=False, trace=False, name="texts"):
     a = ["parse-texts", "-in", inp, "-out", res]
     if observe:
         a.append("-observe")
+    if json:
+        a.append("-json")
     tr = None
     if trace:
         tr = os.path.join(run.work, name + "_trace.ndjson")
@@ -339,7 +341,7 @@ def replay_case(run, rp):
     sub = Run(run.prop, run.tier, run.seed, replay=True)
     sub.work = run.sub("replay_%d" % len(os.listdir(run.work)))
     if rp["pipeline"] == "text":
-        res, _, _ = stage_texts(sub, [rp["q"]], observe=True)
+        res, _, _ = stage_texts(sub, [rp["q"]], observe=True, json=True)
         stage_judge_enum(sub, res, rp["prop"])
     elif rp["pipeline"] == "group":
         line = None
@@ -351,7 +353,7 @@ def replay_case(run, rp):
             raise Broken("replay: group %d not found" % rp["n"])
         cf = os.path.join(sub.work, "one.ndjson")
         open(cf, "w").write(line)
-        res, _, _ = stage_groups(sub, cf, observe=True, sql=True)
+        res, _, _ = stage_groups(sub, cf, observe=True, sql=True, json=True)
         stage_judge_trees(sub, res, rp["prop"], cf)
     elif rp["pipeline"] == "family":
         res = os.path.join(sub.work, "fam.ndjson")
